@@ -268,6 +268,15 @@ func (w *World) VerifyFunc(fs *FuncSpec) {
 			return
 		}
 	}
+	// a function with frame "assigns nothing" never changes memory that existed at entry (every
+	// store carries a frame obligation): spec functions over nested-slice PARAMETERS may then be
+	// evaluated over the entry contents (see flatten)
+	stableEntryHeaps = false
+	for _, c := range fs.Clauses {
+		if c.Kind == "assigns" && strings.TrimSpace(c.Text) == "nothing" {
+			stableEntryHeaps = true
+		}
+	}
 	x := &Exec{W: w, top: fi, counters: map[string]int{}, hints: &Hints{Reveal: map[string]bool{}}}
 	st := &State{cells: map[*ssa.Alloc]Value{}, regs: map[ssa.Value]Value{}, heaps: map[string]*Term{}, globals: map[*ssa.Global]Value{}}
 	st.alloc = Var("alloc@0", RegSort)
@@ -857,7 +866,9 @@ func (w *World) lemmaBody(lem *Lemma, args []SVal) *Term {
 		if s, ok := a.(SSlice); ok && s.Len != nil && s.Off != nil {
 			req = append(req, BVCmp("bvsle", BVInt(0, 64), s.Len), BVCmp("bvsle", BVInt(0, 64), s.Off),
 				BVCmp("bvsle", s.Len, BVInt(int64(1)<<60, 64)), BVCmp("bvsle", s.Off, BVInt(int64(1)<<60, 64)))
-			if wf := nestedWF(s); wf != True {
+			// (the element headers of a nested-slice PARAMETER are well-formed by the function's own
+			// entry assumptions: no guard needed, and none of its skolem constants)
+			if wf := nestedWF(s); wf != True && !isEntryParamSlice(s) {
 				req = append(req, wf)
 			}
 		}
